@@ -28,6 +28,9 @@ pub struct SysConfig {
     pub wal_buffered: bool,
     pub wal_flush_each_write: bool,
     pub wal_fsync: bool,
+    /// capacity of the WAL writer's user-space buffer in bytes (only used when wal_buffered)
+    #[serde(default = "default_wal_buffer_size")]
+    pub wal_buffer_size: usize,
     pub conservative: bool,
     pub bypass_auth: bool,
     pub timezone: String,
@@ -49,6 +52,7 @@ impl Default for SysConfig {
             wal_buffered: false,
             wal_flush_each_write: true,
             wal_fsync: false,
+            wal_buffer_size: 102400,
             conservative: false,
             bypass_auth: true,
             timezone: "UTC".into(),
@@ -83,7 +87,7 @@ impl SysConfig {
 enabled = true
 fsync = {fsync}
 buffered = {buffered}
-buffer_size = "100KB"
+buffer_size = {wbs}
 dir = "{r}/wal/"
 flush_each_write = {few}
 fsync_every_n = 1024
@@ -143,6 +147,7 @@ week_start = "{ws}"
 use_calendar_bucketing = true
 "#,
             fsync = self.wal_fsync,
+            wbs = self.wal_buffer_size,
             buffered = self.wal_buffered,
             few = self.wal_flush_each_write,
             cons = self.conservative,
@@ -161,6 +166,10 @@ use_calendar_bucketing = true
         std::fs::write(&p, text).unwrap();
         p
     }
+}
+
+fn default_wal_buffer_size() -> usize {
+    102400
 }
 
 #[derive(Debug, Clone, Copy, PartialEq, Eq, Serialize, Deserialize)]
